@@ -6,11 +6,12 @@
   as `initiate_tunnel` parses it from the (arbitrarily segmented, arbitrarily hostile) script,
   together with the BufReader state after the head.
   Helper lemmas: Lemmas/RqSend.lean, Lemmas/ConnectCap.lean, Lemmas/ConnectPrefix.lean,
-  Lemmas/RqHeaders.lean, Lemmas/RqRoundTrip.lean.
+  Lemmas/RqHeaders.lean, Lemmas/RqRoundTrip.lean, Lemmas/RqConnect.lean.
 -/
 import Atto.Lemmas.RqSend
 import Atto.Lemmas.RqHeaders
 import Atto.Lemmas.RqLex
+import Atto.Lemmas.RqConnect
 import Atto.Props.C08
 namespace Atto
 
@@ -101,6 +102,22 @@ theorem C12_connect_shape (url p : Url) :
 
 example : (str "CONNECT example.com:443 HTTP/1.1\r\nHost: proxy.local:3128\r\nConnection: close\r\nProxy-Authorization: Basic cHU6cHA=\r\n\r\n")
     = connectRequest C08.originTls C08.proxyUrl := by decide +kernel
+
+/-- (j) The CONNECT head is one well-formed HTTP/1.1 request head: the independent parser of
+    Spec/RequestSpec.lean reads it back as method `CONNECT`, the authority-form target
+    `origin-host ":" origin-effective-port`, the three fields Host (the proxy's host and port),
+    Connection: close, Proxy-Authorization — no framing field, no body, and NOTHING after the head.
+    Needs: no SP / CR / LF in the origin's host, and the proxy's `host:port` a well-formed value. -/
+theorem C12_connect_parses (url p : Url) (hu : ∀ c ∈ url.host, c ≠ 32 ∧ c ≠ 13 ∧ c ≠ 10)
+    (hp : rqWFValue (p.host ++ [58] ++ natDigits p.effPort)) :
+    parseRequest (connectRequest url p) =
+      some ({ method := str "CONNECT", target := url.host ++ [58] ++ natDigits url.effPort,
+              headers := [(str "Host", p.host ++ [58] ++ natDigits p.effPort), (str "Connection", str "close"),
+                          (str "Proxy-Authorization", str "Basic " ++ b64Encode (p.user ++ [58] ++ p.pass.getD []))],
+              body := [] }, []) :=
+  rq_parse_connectRequest url p hu hp
+
+example := C12_connect_parses C08.originTls C08.proxyUrl (by decide +kernel) (by decide +kernel)
 
 /-! ### (k) TLS only after a 2xx head -/
 
